@@ -23,6 +23,7 @@ func init() {
 		outCampaign(r, "C03")
 		compositionLeg(r)
 		liveOutputLeg(r)
+		transcriptLeg(r, "C03", map[string]int{"quick": 300, "thorough": 3000}[r.Tier])
 	})
 	register("C04", "model_checking", func(r *ev.Run) {
 		ctlCampaign(r, "C04")
@@ -31,6 +32,7 @@ func init() {
 		oneShellNoticeLeg(r)
 		repoTestsLeg(r, "C04")
 		freeRunLeg(r, "C04", map[string]int{"quick": 300, "thorough": 3000}[r.Tier])
+		transcriptLeg(r, "C04", map[string]int{"quick": 300, "thorough": 3000}[r.Tier])
 		outCampaign(r, "C04")
 	})
 }
